@@ -242,6 +242,13 @@ def case_strategy(opts):
 
     @st.composite
     def gen(draw):
+        c = draw(gen0())
+        if "load" not in c and draw(st.integers(0, 2)) == 0:
+            c["decor"] = draw(st.integers(1, len(DECOR) - 1))
+        return c
+
+    @st.composite
+    def gen0(draw):
         sel = draw(st.integers(0, 9))
         if sel == 9:
             return {"planted": ["chain", draw(st.integers(1, 4)), draw(st.integers(0, 4)), draw(st.booleans())]}
@@ -265,6 +272,23 @@ def case_strategy(opts):
     return gen()
 
 
+# characters that mean something to the DOT language / to the plain output format, appended to the last segment of every path
+DECOR = ["", ' "draft"', ":port", " it's", " <b>", "->x", " [x]", ";", "{a|b}", "%s"]
+
+
+def decorate(prog, suffix):
+    def walk(x):
+        if isinstance(x, str):
+            return x + suffix if x.startswith("/") else x
+        if isinstance(x, list):
+            return [walk(y) for y in x]
+        if isinstance(x, dict):
+            return {k: walk(v) for k, v in x.items()}
+        return x
+
+    return walk(prog)
+
+
 def check_case(case, ev=None, scratch=None):
     own = scratch is None
     scratch = scratch or common.Scratch("vf-c18")
@@ -280,6 +304,8 @@ def check_case(case, ev=None, scratch=None):
         else:
             prog, root = case["prog"], case["root"]
             order = None
+        if case.get("decor"):
+            prog = decorate(prog, DECOR[case["decor"] % len(DECOR)])
         sess.write(prog)
         sess.start()
         if order == "earlier_eval":
